@@ -123,13 +123,13 @@ Proof.
   - (* HSysErr *)
     destruct (w_err c).
     { apply Some_inj in H; subst st'. apply post_commit; dj. }
+    set (st0 := if g_dones c then add_misused st id else st) in *.
+    destruct (conn_send_syserr st0 id full) as [st1 ok] eqn:Cs.
     destruct (done_sending (upd_w c false WComplete (rd_err c))) as [c1 chk] eqn:Ds.
     apply done_sending_spec in Ds. fields.
-    set (st0 := if g_dones c then add_misused st id else st) in *.
-    destruct (conn_send_syserr (commit st0 id c1 chk) id full) as [st2 ok] eqn:Cs.
     apply Some_inj in H; subst st'.
-    pose proof (send_syserr_fields (commit st0 id c1 chk) id full) as (_ & _ & _ & _ & S).
-    rewrite Cs in S. cbn [fst] in S. rewrite sent_commit in S.
+    pose proof (send_syserr_fields st0 id full) as (_ & _ & _ & _ & S).
+    rewrite Cs in S. cbn [fst] in S.
     assert (S0 : sent st0 = sent st) by (unfold st0; destruct (g_dones c); reflexivity).
     split.
     + eexists. split; [apply get_commit_same|]. dj.
